@@ -439,6 +439,16 @@ static int cmdProduct(const std::string &path)
         for (auto &d : j["dead"])
             dead.insert({triOf(d[0]), d[1].get<int>()});
 
+        // what the specification offers (vacuity is measured on this side: it does not depend on how far the
+        // code under test lets the replay get)
+        rep.count[j["minw"].get<int>() < 0 ? "spec_configs_without_solution" : "spec_configs_with_solution"]++;
+        rep.count["spec_configs_with_ties"] += j["ties"].get<int>();
+        rep.count["spec_dead_moves"] += (long)dead.size();
+        if (j["minw"].get<int>() >= 0)
+            for (auto &i : j["info"])
+                if (i.size() > 5)
+                    rep.count[i[5].get<int>() < 0 ? "spec_states_without_lead" : "spec_states_with_lead"]++;
+
         // start state through getState(base::State)
         int r0 = j["start"];
         ob::State *bs = space->allocState();
